@@ -257,6 +257,9 @@ func TestC04(t *testing.T) {
 		for _, u := range unis {
 			for _, s := range secs {
 				full := ids == [2]int{0, 1} && u == [2]string{"u", "u"} && s == [2]string{"s", "s"}
+				if env.Thorough() && ids[0] != ids[1] && u[0] == u[1] && (s[0] == s[1] || s == [2]string{"", ""}) {
+					full = true // thorough: every bit of every message for every admissible configuration
+				}
 				if !env.Thorough() && ids != [2]int{0, 1} && !(u == [2]string{"u", "u"} && s[0] == s[1]) {
 					continue
 				}
